@@ -99,7 +99,17 @@ func c05load(g *Gen, i int, path string, files map[string]string, names []string
 	if err := p.LoadPackagesWithConfigForTesting(cfg, path); err != nil {
 		return nil, err
 	}
-	return p.NewUniverse()
+	u, err := p.NewUniverse()
+	if err == nil && c05twice {
+		// requested once more, into the universe that already holds it
+		cwd, _ := os.Getwd()
+		os.Chdir(dir)
+		os.Setenv("GOFLAGS", "-mod=mod")
+		os.Setenv("GOWORK", "off")
+		_, err = p.LoadPackagesTo(&u, path)
+		os.Chdir(cwd)
+	}
+	return u, err
 }
 
 func c02nresults(s *types.Signature) int { return len(s.Results) }
